@@ -479,6 +479,20 @@ def full_dir_session(rng, variant):
                 "rename %d %s %d %s" % (src_dir, hexs("movable dir"), target, hexs(big + " dir moved in")), "list %d" % src_dir,
                 "list %d" % target, "stats"]
         return out
+    if variant == "root" and names:
+        # the newest entry goes: its d slots now lie directly before the end marker; an entry of exactly d + r slots fits
+        # (r = never-used slots behind the marker), one of d + r + 1 does not
+        d = nslots(names[-1]); r = cap - used
+        lines += ["remove 0 %s" % hexs(names[-1])]
+        fit = "fits exactly " + "e" * (13 * (d + r - 2) + 1 - len("fits exactly "))
+        if d + r >= 3 and nslots(fit) == d + r:
+            lines += ["create_file 0 %s 93" % hexs(fit), "drop_file 93", "list 0", "remove 0 %s" % hexs(fit)]
+            big1 = "one slot too many " + "m" * (13 * (d + r - 1) + 1 - len("one slot too many "))
+            if nslots(big1) == d + r + 1:
+                lines += ["create_file 0 %s 94" % hexs(big1), "list 0"]
+            lines += ["rename 1 %s 0 %s" % (hexs(src_file), hexs(fit)), "list 0", "rename 0 %s 1 %s" % (hexs(fit), hexs(src_file))]
+            lines += ["create_dir 0 %s 95" % hexs(fit), "drop_dir 95", "list 0", "remove 0 %s" % hexs(fit)]
+        lines += ["create_file 0 %s 96" % hexs(names[-1]), "drop_file 96"]      # back to the tight state
     lines += attempts("first")
     if variant == "chain":
         lines += ["seek 8 start 2000", "truncate 8", "flush 8", "stats"]
